@@ -42,8 +42,13 @@ def run(ctx):
     for s in inputs:
         for opts in (dict(), dict(proceedonerror=True)):
             o = canon.run(bl, 'parse', s, **opts)
-            if not o.startswith('OK [{'): continue
-            trees = bl.parse(s, **opts)
+            if o.startswith('OK [{'):
+                trees = bl.parse(s, **opts)
+            else:
+                # parse() runs visitors of its own on later parts; parsesingle hands out the tree of the first command as built
+                o = canon.run(bl, 'single', s, **opts)
+                if not o.startswith('ONE {'): continue
+                trees = [bl.parsesingle(s, **opts)]
             Rec, d = make_recorder(bl, None)
             r = Rec()
             try:
